@@ -176,7 +176,7 @@ struct JParser
 		ws();
 		if (p >= t.size())
 			return false;
-		if (++depth > 600)
+		if (++depth > 5000)
 			return false;
 		bool ok = false;
 		char c = t[p];
